@@ -1025,10 +1025,11 @@ class Table(Vector):
 				# Convert to Vector if needed
 				if isinstance(values, Vector):
 					col = values.copy()  # Copy to prevent aliasing
-				elif isinstance(values, Iterable) and not isinstance(values, (str, bytes, bytearray, int, float, complex, Enum)):
+				elif isinstance(values, Iterable) and not isinstance(values, (str, bytes, bytearray, int, float, complex, Enum, Mapping)):
 					col = Vector(values)
 				else:
 					# Reject scalars - user must be explicit
+					# (and a mapping: iterating it would store its KEYS as the column)
 					raise ValueError(
 						f"Column '{col_name}' value must be iterable (list, Vector, etc.), not scalar. "
 						f"Use Vector.new({values!r}, {len(self)}) for scalar broadcast."
